@@ -83,14 +83,40 @@ def plan(tier, seed):
 
 
 def run_fidelity(ctx, test_file):
-  import os, re, subprocess, sys
+  """Runs one upstream test file against the stand-in transport.
+
+  The interpreter sometimes does not exit after the summary line (a lingering
+  non-daemon thread of a test server, also on the upstream code): the summary
+  is what counts, the process is killed once it is printed.
+  """
+  import os, re, signal, subprocess, sys, tempfile, time
   from vlib import runner
   env = dict(os.environ)
   env['PYTHONPATH'] = os.pathsep.join([os.path.join(runner.ROOT, 'vlib/fakecourier'), runner.REPO])
-  r = subprocess.run(
-      [sys.executable, '-m', 'pytest', '-q', '-p', 'no:cacheprovider', '--timeout=300', test_file],
-      cwd=runner.REPO, env=env, capture_output=True, text=True, timeout=1500)
-  tail = r.stdout.strip().splitlines()[-1] if r.stdout.strip() else ''
+  with tempfile.TemporaryFile('w+') as out:
+    proc = subprocess.Popen(
+        [sys.executable, '-m', 'pytest', '-q', '-p', 'no:cacheprovider', '--timeout=300', test_file],
+        cwd=runner.REPO, env=env, stdout=out, stderr=subprocess.STDOUT, text=True,
+        start_new_session=True)
+    deadline = time.time() + 1500
+    tail, seen_at = '', None
+    while time.time() < deadline:
+      rc = proc.poll()
+      out.seek(0)
+      lines = [l for l in out.read().splitlines() if re.search(r'\d+ (passed|failed|error)', l)]
+      if lines:
+        tail = lines[-1]
+        seen_at = seen_at or time.time()
+      if rc is not None or (seen_at and time.time() - seen_at > 20):
+        break
+      time.sleep(0.5)
+    if proc.poll() is None:
+      try:
+        os.killpg(proc.pid, signal.SIGKILL)
+      except OSError:
+        pass
+      proc.wait(30)
+      ctx.observe('fidelity_process_killed_after_summary', {'file': test_file, 'summary': tail})
   passed = int((re.search(r'(\d+) passed', tail) or [0, 0])[1])
   failed = int((re.search(r'(\d+) failed', tail) or [0, 0])[1])
   ctx.count('fidelity_tests_passed', passed)
